@@ -201,6 +201,15 @@ mut("c19_n_zero_accepted", "C19", "sempler/semi.py",
     "        elif type(n) == int and n <= 0:",
     "        elif type(n) == int and n < 0:",
     "n=0 returns empty arrays instead of the documented ValueError")
+mut("c19_draw_ignores_the_weights", "C19", "drf/code.py",
+    "                  ids = np.random.choice(range(Y.shape[0]), 1, p=weights[i, :])[0]",
+    "                  ids = np.random.choice(np.flatnonzero(weights[i, :] > 0), 1)[0]",
+    "weight rows that are not uniform on their support, and enough rows for a frequency test")
+mut("c19_draw_from_truncated_weights", "C19", "drf/code.py",
+    "                  ids = np.random.choice(range(Y.shape[0]), 1, p=weights[i, :])[0]",
+    "                  wi = np.where(weights[i, :] > 1e-2 * weights[i, :].max(), weights[i, :], 0.0)\n"
+    "                  ids = np.random.choice(range(Y.shape[0]), 1, p=wi / wi.sum())[0]",
+    "long-tailed weight rows and many rows")
 
 EXTRA = {
     "c14_lganm_modify_restore_no_finally": ("sempler/lganm.py",
